@@ -108,7 +108,47 @@ def gen_case(rng, big=False):
         stokes = [1.0, _dy(rng, -1 / 2, 1 / 2, 3), _dy(rng, -1 / 2, 1 / 2, 3), _dy(rng, -1 / 2, 1 / 2, 3)]
     case = {'pupil': pupil, 'lams': lams, 'f': f, 'focal': focal, 'wf': wfk, 'stokes': stokes,
             'fseed': int(rng.integers(0, 2 ** 31))}
+    add_orientation(rng, case)
+    add_amplitude(rng, case)
     return add_aliasing(rng, case)
+
+
+def add_orientation(rng, case):
+    """Orientation class: focal grids with negative spacing on one or both axes (`grid.scaled([sx, sy])`, `grid.scaled(-1)`,
+    `grid.reversed()`) that are otherwise FFT-commensurate with the pupil grid, and negative focal lengths (constant or
+    callable).  The uv grid `focal.scaled(2 pi/(lam f))` is then mirrored on the axes where sign(delta)*sign(lam f) < 0 and is NOT
+    a native FFT grid (the FFT cannot produce a mirrored output); with both signs negative it is native again."""
+    fo = case['focal']
+    if fo['kind'] in ('ffpg', 'conj', 'mfg', 'regular') and rng.random() < 0.30:
+        r = rng.random()
+        if r < 0.3:
+            fo['mirror'] = [1, -1]
+        elif r < 0.6:
+            fo['mirror'] = [-1, 1]
+        elif r < 0.8 or fo['kind'] in ('ffpg', 'mfg'):
+            fo['mirror'] = [-1, -1]
+        else:
+            fo['reversed'] = True
+    if rng.random() < 0.18:
+        f = case['f']
+        f['a'] = -f['a']
+        if f['kind'] == 'callable':
+            f['b'] = -f['b']
+        if 'f' in fo:
+            # the constructors were called with the (negative) focal length of the first wavelength
+            fo['f'] = -fo['f']
+
+
+def add_amplitude(rng, case):
+    """Amplitude class: every tensor component of the field is multiplied by its own exact power of two 2^e, e in [-40, 40]
+    (floats scale exactly; the property is homogeneous of degree one per component)."""
+    n = {'scalar': 1, 'scalar-stokes': 1, 'jones': 2, 'matrix': 4}[case['wf']]
+    r = rng.random()
+    if r < 0.35:
+        e = int(rng.integers(-40, 41))
+        case['amp'] = [e] * n                                   # whole wavefront faint / bright
+    elif r < 0.55:
+        case['amp'] = [int(rng.integers(-40, 41)) for _ in range(n)]   # components of very different strength
 
 
 def add_aliasing(rng, case):
@@ -159,6 +199,21 @@ def directed():
         for shared in (False, True):
             cases.append({'pupil': dict(sq8), 'lams': [0.5], 'f': {'kind': 'const', 'a': 2.0}, 'focal': dict(fo), 'wf': 'scalar',
                           'stokes': None, 'fseed': 10, 'shared': shared})
+    # orientation class: mirrored / reversed full conjugates, negative focal length; amplitude class: faint tensor fields
+    asym = {'delta': [0.125, 0.125], 'dims': [6, 5], 'zero': [-0.3125, -0.25]}
+    for mir, fa, wf, amp in (([1, -1], 2.0, 'scalar', None), ([-1, 1], 2.0, 'jones', [-28, -28]), ([-1, -1], 2.0, 'scalar', None),
+                             ([-1, -1], -2.0, 'matrix', [-30] * 4), (None, -2.0, 'scalar', [30]), ([1, -1], -2.0, 'jones', [0, -35])):
+        fo = {'kind': 'ffpg', 'q': 2.0, 'num_airy': None, 'f': fa, 'lam': 0.5}
+        if mir:
+            fo['mirror'] = mir
+        c = {'pupil': dict(asym), 'lams': [0.5, 1.0], 'f': {'kind': 'const', 'a': fa}, 'focal': fo, 'wf': wf,
+             'stokes': [1.0, 0.5, -0.25, 0.125] if wf == 'matrix' else None, 'fseed': 13}
+        if amp:
+            c['amp'] = amp
+        cases.append(c)
+    cases.append({'pupil': dict(asym), 'lams': [0.5], 'f': {'kind': 'const', 'a': 2.0},
+                  'focal': {'kind': 'conj', 'M': [12, 10], 'f': 2.0, 'lam': 0.5, 'crop': [0, 0], 'shift': [0, 0], 'reversed': True},
+                  'wf': 'scalar-stokes', 'stokes': [1.0, 0.0, 0.5, 0.0], 'fseed': 14, 'amp': [-33]})
     cases.append({'pupil': {'delta': [0.125, 0.125], 'dims': [6, 5], 'zero': [0.125, 0.125], 'alias': True}, 'lams': [0.5, 1.0],
                   'f': {'kind': 'const', 'a': 2.0}, 'focal': {'kind': 'ffpg', 'q': 2.0, 'num_airy': None, 'f': 2.0, 'lam': 0.5},
                   'wf': 'jones', 'stokes': None, 'fseed': 12, 'shared': True})
@@ -190,6 +245,23 @@ def build_pupil(case):
 
 def build_focal(case, pupil_grid):
     """Returns (grid, exact) where exact = (delta, dims, zero) as Fractions for hand-built regular grids, else None."""
+    g, exact = _build_focal(case, pupil_grid)
+    fo = case['focal']
+    if fo.get('mirror'):
+        sx, sy = fo['mirror']
+        g = g.scaled(-1) if (sx, sy) == (-1, -1) and case['fseed'] % 2 == 0 else g.scaled(np.array([float(sx), float(sy)]))
+        if exact is not None:
+            d, n, z = exact
+            exact = ([d[0] * sx, d[1] * sy], n, [z[0] * sx, z[1] * sy])
+    elif fo.get('reversed'):
+        g = g.reversed()
+        if exact is not None:
+            d, n, z = exact
+            exact = ([-d[0], -d[1]], n, [z[0] + d[0] * (n[0] - 1), z[1] + d[1] * (n[1] - 1)])
+    return g, exact
+
+
+def _build_focal(case, pupil_grid):
     import hcipy
     fo = case['focal']
     k = fo['kind']
@@ -236,7 +308,37 @@ def make_field(case, grid):
     ts = {'scalar': (), 'scalar-stokes': (), 'jones': (2,), 'matrix': (2, 2)}[case['wf']]
     re = rng.integers(-8, 9, size=ts + (grid.size,)) / 4.0
     im = rng.integers(-8, 9, size=ts + (grid.size,)) / 4.0
-    return hcipy.Field(re + 1j * im, grid)
+    return hcipy.Field((re + 1j * im) * amp_factors(case, ts), grid)
+
+
+def amp_factors(case, ts, c64=False):
+    """Per-component exact powers of two, shaped to broadcast over the field (single precision: exponents kept within +-12)."""
+    amp = case.get('amp')
+    if not amp:
+        return 1.0
+    e = np.array(amp, dtype=float)
+    if c64:
+        e = np.clip(e, -12, 12)
+    return (2.0 ** e).reshape(ts + (1,))
+
+
+def rel_err(got, ref, e_in, w_in, lf):
+    """max over tensor components t of  max|got_t - ref_t| / B_t,  B_t = sum |E_t| w / |lam f|  (the bound of |ref_t|, homogeneous
+    of degree one in E_t; no absolute floor: a faint component must be as accurate, relatively, as a bright one)."""
+    n_out = ref.shape[-1] if ref.ndim else 1
+    if ref.size == 0:
+        return 0.0
+    n_in = np.asarray(e_in).shape[-1]
+    E = np.abs(np.asarray(e_in, dtype=np.clongdouble)).reshape(-1, n_in)
+    w = np.asarray(w_in, dtype=LD) * np.ones(n_in, dtype=LD)
+    B = (E * w).sum(axis=1) / abs(LD(lf))
+    err = np.abs(np.asarray(got).reshape(-1, n_out) - np.asarray(ref).reshape(-1, n_out)).max(axis=1)
+    worst = 0.0
+    for b, e in zip(B, err):
+        if e == 0:
+            continue
+        worst = max(worst, float('inf') if b == 0 else float(e / b))
+    return worst
 
 
 def make_wavefront(case, field, lam):
@@ -346,8 +448,8 @@ def oracle_case(case, observe=None):
             o0 = other.forward(w0)
             if not d4_affected(pupil_grid, focal_grid, lam0, 3.0):
                 ref0 = direct_sum(pupil_grid, focal_grid, np.asarray(w0.electric_field), lam0, 3.0)
-                err0 = float(np.abs(np.asarray(o0.electric_field).reshape(-1, focal_grid.size) - ref0).max())
-                if not err0 <= TOL * max(1.0, float(np.abs(ref0).max())):
+                err0 = rel_err(np.asarray(o0.electric_field), ref0, np.asarray(w0.electric_field), pupil_grid.weights, lam0 * 3.0)
+                if not err0 <= TOL:
                     bad.append(('integral shared-grids ' + case['focal']['kind'], 'a second propagator on the same grid objects differs from the Fourier sum by %.3g' % err0))
         except Exception as e:
             if not d4_affected(pupil_grid, focal_grid, lam0, 3.0):
@@ -376,10 +478,10 @@ def oracle_case(case, observe=None):
             lb.append(('output-grid ' + kind, 'forward did not return the field on the supplied focal grid'))
         ref = direct_sum(pupil_grid, focal_grid, e_in, lam, f)
         got = np.asarray(out.electric_field).reshape(-1, focal_grid.size)
-        scale = max(1.0, float(np.abs(ref).max())) if ref.size else 1.0
-        err = float(np.abs(got - ref).max()) if ref.size else 0.0
-        if not err <= TOL * scale:
-            lb.append(('integral ' + kind, 'forward differs from 1/(i lam f) sum E w exp(-2 pi i x.u/(lam f)) by %.3g (scale %.3g) at lam=%r f=%r'
+        scale = float(np.abs(ref).max()) if ref.size else 0.0
+        err = rel_err(got, ref, e_in, pupil_grid.weights, lam * f)
+        if not err <= TOL:
+            lb.append(('integral ' + kind, 'forward differs from 1/(i lam f) sum E w exp(-2 pi i x.u/(lam f)) by %.3g relative to sum|E|w/|lam f| of the component (|ref|max %.3g) at lam=%r f=%r'
                         % (err, scale, lam, f)))
         if out.wavelength != lam:
             lb.append(('wavelength-carried', 'forward changed the wavelength %r -> %r' % (lam, out.wavelength)))
@@ -395,11 +497,13 @@ def oracle_case(case, observe=None):
         if full:
             p_in, p_out = float(wf.total_power), float(out.total_power)
             rec['gain'] = p_out / p_in if p_in else None
-            if not abs(p_out - p_in) <= TOL * max(1.0, abs(p_in)):
+            if not abs(p_out - p_in) <= TOL * abs(p_in):
                 lb.append(('power ' + kind, 'total power %r -> %r on the full conjugate grid (lam=%r f=%r)' % (p_in, p_out, lam, f)))
             back = prop.backward(out)
-            berr = float(np.abs(np.asarray(back.electric_field) - np.asarray(e_in)).max())
-            if not berr <= TOL * max(1.0, float(np.abs(e_in).max())):
+            eb = np.abs(np.asarray(back.electric_field) - np.asarray(e_in)).reshape(-1, pupil_grid.size).max(axis=1)
+            en = np.abs(np.asarray(e_in)).reshape(-1, pupil_grid.size).max(axis=1)
+            berr = max([0.0] + [float('inf') if (n == 0 and e > 0) else (0.0 if e == 0 else float(e / n)) for e, n in zip(eb, en)])
+            if not berr <= TOL:
                 lb.append(('inverse ' + kind, 'backward(forward(E)) differs from E by %.3g on the full conjugate grid (lam=%r f=%r)' % (berr, lam, f)))
             if back.wavelength != lam:
                 lb.append(('wavelength-carried', 'backward changed the wavelength'))
@@ -523,6 +627,8 @@ def model_requests(case, obs, rng):
         if fo['kind'] == 'ffpg':
             lines.append('C03 ffpg %s %s %s' % (rat(fo['q']), '-' if fo['num_airy'] is None else rat(fo['num_airy']), rat(Fraction(fo['f']) * Fraction(fo['lam']))))
             plan.append(('grid', rec))
+            if fo.get('mirror'):
+                lines.append('C03 mirror [%d,%d]' % tuple(fo['mirror'])); plan.append(('mirror', rec))
             lines.append('C03 focal cur'); plan.append(('focal', rec))
         elif fo['kind'] == 'mfg':
             diam = fo['diam'] if isinstance(fo['diam'], list) else [fo['diam']] * 2
@@ -530,6 +636,8 @@ def model_requests(case, obs, rng):
             # the code computes f_number = f / D then * wavelength in floats; keep cases where that is exact
             lines.append('C03 mkfocal %s %s %s' % (rat_list([fo['q']] * 2), rat_list([fo['num_airy']] * 2), rat_list(sr)))
             plan.append(('grid', rec))
+            if fo.get('mirror'):
+                lines.append('C03 mirror [%d,%d]' % tuple(fo['mirror'])); plan.append(('mirror', rec))
             lines.append('C03 focal cur'); plan.append(('focal', rec))
         elif regular:
             d, n, z = obs['exact']
@@ -585,10 +693,20 @@ def compare_model(ctx, case, obs, plan, answers):
                     ctx.disagree('C03 focal constructor dims', {'case': case, 'impl': [int(d) for d in fg.dims], 'model': dims})
                 cur_grid_ok = False
                 continue
+            sg = case['focal'].get('mirror') or [1, 1]
+            d = [float(x) * s_ for x, s_ in zip(parse_rat_list(kv['delta']), sg)]
+            z = [float(x) * s_ for x, s_ in zip(parse_rat_list(kv['zero']), sg)]
+            if not all(_close(a, float(b)) for a, b in zip(d, fg.delta)) or not all(_close(a, float(b), 1e-10) for a, b in zip(z, fg.zero)):
+                ctx.disagree('C03 focal constructor grid', {'case': case, 'impl': [list(map(float, fg.delta)), list(map(float, fg.zero))], 'model': [d, z]})
+                cur_grid_ok = False
+        elif kind == 'mirror':
+            if not cur_grid_ok:
+                continue
+            kv = _kv(resp)
             d = [float(x) for x in parse_rat_list(kv['delta'])]
             z = [float(x) for x in parse_rat_list(kv['zero'])]
             if not all(_close(a, float(b)) for a, b in zip(d, fg.delta)) or not all(_close(a, float(b), 1e-10) for a, b in zip(z, fg.zero)):
-                ctx.disagree('C03 focal constructor grid', {'case': case, 'impl': [list(map(float, fg.delta)), list(map(float, fg.zero))], 'model': [d, z]})
+                ctx.disagree('C03 mirrored focal grid (grid.scaled per axis)', {'case': case, 'impl': [list(map(float, fg.delta)), list(map(float, fg.zero))], 'model': [d, z]})
                 cur_grid_ok = False
         elif kind == 'focal':
             if not cur_grid_ok:
@@ -606,8 +724,14 @@ def compare_model(ctx, case, obs, plan, answers):
                 ctx.disagree('C03 uv weights', {'case': case, 'impl': wf_impl, 'model': wf_model})
             cls = kv['class']
             ctx.count('class:%s/%s' % (cls, rec['ft']))
+            neg_axes = sum(1 for x in parse_rat_list(kv['uvdelta']) if x < 0)
+            if neg_axes:
+                # orientation class: a uv grid with negative spacing on an axis is never a native FFT grid
+                ctx.count('uv-grid-mirrored-axes:%d class:%s/%s' % (neg_axes, cls, rec['ft']))
+                if cls != 'other' or rec['ft'] == 'FastFourierTransform':
+                    ctx.disagree('C03 mirrored uv grid accepted as FFT grid', {'case': case, 'lam': rec['lam'], 'model': cls, 'impl': rec['ft']})
             fo_ = case['focal']
-            if (fo_['kind'] == 'ffpg' and fo_['num_airy'] is None and Fraction(fo_['q']) >= 1
+            if (fo_['kind'] == 'ffpg' and fo_['num_airy'] is None and Fraction(fo_['q']) >= 1 and not fo_.get('mirror')
                     and Fraction(rec['lam']) * Fraction(rec['f']) == Fraction(fo_['f']) * Fraction(fo_['lam'])):
                 # theorem focalFromPupil_full_conjugate: the constructor's grid (full field of view, q >= 1) is a full
                 # conjugate at the lam*f it was built for -- for the model's grid, which was just compared with the code's
@@ -649,7 +773,7 @@ def compare_model(ctx, case, obs, plan, answers):
                 got = complex(np.asarray(prop.backward(hcipy.Wavefront(e, rec['lam'])).electric_field)[jf])
             real = {'FastFourierTransform': 'fft', 'MatrixFourierTransform': 'mft', 'NaiveFourierTransform': 'naive'}.get(rec['ft'], rec['ft'])
             ctx.count('lens:%s model=%s code=%s' % (d, kv['method'], real))
-            if not abs(got - want) <= TOL * max(1.0, abs(want)):
+            if not abs(got - want) <= TOL * abs(want):
                 ctx.count('DISAGREE lens pipeline %s model=%s code=%s' % (d, kv['method'], real))
                 ctx.disagree('C03 lens pipeline (%s, model method %s, code %s)' % (d, kv['method'], real),
                              {'case': case, 'lam': rec['lam'], 'dir': d, 'pupil_index': [jx, jy], 'focal_index': kf,
@@ -681,7 +805,7 @@ def compare_model(ctx, case, obs, plan, answers):
             e = pg.zeros(dtype=complex)
             e[jy * p['dims'][0] + jx] = 1.0
             got = complex(np.asarray(prop.forward(hcipy.Wavefront(e, rec['lam'])).electric_field)[kf])
-            if not abs(got - want) <= TOL * max(1.0, abs(want)):
+            if not abs(got - want) <= TOL * abs(want):
                 ctx.disagree('C03 impulse response', {'case': case, 'lam': rec['lam'], 'pupil_index': [jx, jy], 'focal_index': kf,
                                                       'impl': str(got), 'model': str(want)})
 
@@ -781,7 +905,7 @@ def _focal_field(case, grid, salt, dtype):
     ts = {'scalar': (), 'scalar-stokes': (), 'jones': (2,), 'matrix': (2, 2)}[case['wf']]
     re = rng.integers(-8, 9, size=ts + (grid.size,)) / 4.0
     im = rng.integers(-8, 9, size=ts + (grid.size,)) / 4.0
-    return hcipy.Field((re + 1j * im).astype(dtype), grid)
+    return hcipy.Field(((re + 1j * im) * amp_factors(case, ts, c64=(dtype == np.complex64))).astype(dtype), grid)
 
 
 def oracle_session(sess, observe=None):
@@ -855,20 +979,23 @@ def oracle_session(sess, observe=None):
                     out2 = prop.forward(out)
                     ref2 = direct_sum(pupil_grid, focal_grid, kept[-1][1], lam, f, kcache)
                     got2 = np.asarray(out2.electric_field).reshape(-1, focal_grid.size)
-                e2 = float(np.abs(got2 - ref2).max())
-                if not e2 <= tol * 10 * max(1.0, float(np.abs(ref2).max())):
+                if op['op'] == 'fwd':
+                    e2 = rel_err(got2, ref2, kept[-1][1], focal_grid.weights, lam * f)
+                else:
+                    e2 = rel_err(got2, ref2, kept[-1][1], pupil_grid.weights, lam * f)
+                if not e2 <= tol * 10:
                     bad.append(('reuse-chained after-' + op['op'], 'feeding the result of %s straight back into the same propagator differs from the direct sum by %.3g (history %s)' % (op['op'], e2, prev)))
                 bad += results_still_valid(kept, 'after chained call (history %s)' % prev)
                 bad += result_is_independent(prop, pupil_grid, lam, np.asarray(out2.electric_field), garr, kept, prev)
                 kept.append((out2, np.asarray(out2.electric_field).copy(), 'chained #%d' % len(kept)))
             except Exception as e:
                 bad.append(('reuse raises %s' % type(e).__name__, 'chained call raised %s: %s after %s' % (type(e).__name__, e, prev)))
-        scale = max(1.0, float(np.abs(ref).max()))
-        err = float(np.abs(got - ref).max())
+        scale = float(np.abs(ref).max())
+        err = rel_err(got, ref, e_in, pupil_grid.weights if op['op'] == 'fwd' else focal_grid.weights, lam * f)
         hist = prev.split('>')
         last = hist[-1]
         had64 = 'c64' in prev
-        if not err <= tol * scale and not d4:
+        if not err <= tol and not d4:
             key = 'reuse-%s after-%s%s' % ('forward' if op['op'] == 'fwd' else 'backward', last, '+earlier-c64' if had64 and op['dtype'] == 'c128' else '')
             bad.append((key, '%s #%d on a reused propagator (history %s) differs from the %s sum for the current focal length by %.3g (scale %.3g, lam=%r f=%r, %s)'
                         % (op['op'], len(log), prev, 'Fourier' if op['op'] == 'fwd' else 'adjoint Fourier', err, scale, lam, f, op['dtype'])))
@@ -974,6 +1101,16 @@ def run(ctx):
                 ctx.count('grids-shared-with-second-propagator')
             ctx.count('wf:' + case['wf'])
             ctx.count('f:' + case['f']['kind'])
+            if case['f']['a'] < 0:
+                ctx.count('f:negative')
+            fo_ = case['focal']
+            if fo_.get('mirror') or fo_.get('reversed'):
+                ctx.count('focal-orientation:%s %s f%s' % (fo_['kind'], 'reversed' if fo_.get('reversed') else 'scaled%s' % fo_['mirror'],
+                                                         '<0' if case['f']['a'] < 0 else '>0'))
+            if case.get('amp'):
+                a_ = case['amp']
+                ctx.count('amplitude:%s %s' % (case['wf'], 'uniform-faint(<=2^-27)' if max(a_) <= -27 else 'uniform-bright(>=2^27)' if min(a_) >= 27
+                                               else 'uniform' if len(set(a_)) == 1 else 'components-differ'))
             for rec in obs['per_lam']:
                 if rec.get('d4'):
                     ctx.count('D4-affected-sizes')
